@@ -19,6 +19,32 @@ def run(v, tier, replay):
             behs = behs[:12000]
         res = H.replay(v, behs, fam)
         nun += H.judge(v, "C01", behs, res)
+    # validity is judged at the time of EACH handshake: one long-lived server / one shared client policy sees a
+    # certificate while it is valid and again after it has expired (real clock, 2 s certificates)
+    import os
+    binp = lib.go_build("hsexpiry")
+    sd = lib.scratch("vf-c01-")
+    of = os.path.join(sd, "expiry.ndjson")
+    rc, so, se = lib.run([binp, of], timeout=300)
+    evs = lib.read_ndjson(of) if os.path.exists(of) else []
+    if rc != 0 or len(evs) < 16:
+        raise lib.Inconclusive("hsexpiry failed: " + (so + se)[-2000:])
+    for e in evs:
+        v.case(("expiry", e["side"], e["hidden"], e["phase"]), nontrivial=True)
+        # who judges the expiring certificate: the server (it must not offer the connection) or the client (its
+        # Handshake must fail); the other side may well complete, it was shown a valid certificate
+        ok = e["offered"] > 0 if e["side"] == "client-cert" else e["completed"] == "yes"
+        if e["phase"] == "after" and ok:
+            v.violation("handshake with an EXPIRED %s succeeded (%s mode): the same certificate had been accepted by the same long-lived %s while it was valid; client completed=%s, server offered %d connection(s)" % (
+                            "client certificate" if e["side"] == "client-cert" else "server certificate", "hidden" if e["hidden"] == "yes" else "discoverable",
+                            "server" if e["side"] == "client-cert" else "client policy", e["completed"], e["offered"]),
+                        "real client and server, real clock; certificate life 2 s", e)
+        elif e["phase"] != "after" and not (e["completed"] == "yes" and e["offered"] == 1):
+            if e["phase"] == "before" and e["late_ms"] > -300:
+                continue    # the machine was too slow to use the certificate while it was valid: no verdict from this case
+            raise lib.Inconclusive("hsexpiry: a handshake that must succeed did not (%s)" % e)
+        else:
+            v.count("traces_validated_against_impl")
     v.cov["exhaustive"] = True
     if nun:
         if not v.viol:
